@@ -110,6 +110,7 @@ func poolB(tier string, i int) GenOpts {
 	case 2:
 		o.Ckpt = true
 		o.NoVariable = true
+		o.Rewrite = true // ends with two un-checkpointed groups that write the same fixed slot
 	}
 	return o
 }
